@@ -76,10 +76,6 @@ StepRefines ==
     [] op.op = "setFlag"    -> PostSetFlag(pre, op.f, post)
 Refinement == [][StepRefines]_vars
 
-(* the known deviations are real: the transcribed algorithm does break the contract there      *)
-(* (if a repaired algorithm makes these fail, predicate and known_findings entry go together)   *)
-DeviationsAreReal ==
-  \A n \in Nodes :
-     (Len(list) > 0 /\ DocOrdered(list) /\ KnownDeviation(list, n))
-        => ~IsUnion(AddNodeInDocOrder(list, n), list, {n})
+(* no deviation is excluded any more: KnownDeviation is FALSE, so Spec and GenSpec coincide *)
+DeviationsAreReal == TRUE
 =============================================================================
